@@ -826,3 +826,7 @@ package main
 //@ func lemmaAnyAdmitsEveryFactor
 //@   requires lvl == AuthTypePassword || lvl == AuthTypeFederated || lvl == AuthTypeU2F || lvl == AuthTypeSymantecVIP || lvl == AuthTypeIPCertificate || lvl == AuthTypeTOTP || lvl == AuthTypeOkta2FA || lvl == AuthTypeBootstrapOTP || lvl == AuthTypeKeymasterX509 || lvl == AuthTypeWebauthForCLI || lvl == AuthTypeFIDO2
 //@   ensures ret0   #C01.any-admits-every-factor @C01,C06
+
+// ---- C08: the administrator verdict cache is written only by the administrator check itself (whose contract says
+// with which value): no other function can promote anybody to administrator through it
+//@ callers github.com/Cloud-Foundations/keymaster/keymasterd/admincache.Cache).Put only (*RuntimeState).IsAdminUser  #C08.only-the-admin-check-writes-the-admin-cache @C08
